@@ -794,7 +794,7 @@ func cmdC01(seed int64, tier, outDir string) {
 	}
 	n *= optBoost
 	id := 0
-	for _, p := range append(c01Corpus(), c01StageCorpus()...) {
+	for _, p := range append(append(c01Corpus(), c01StageCorpus()...), pgStrCorpus()...) {
 		id++
 		run.runCase(p, id)
 	}
